@@ -603,3 +603,8 @@ _add(
     m("execution-tags-passed-as-chain", S, "            list(chain(self._exec_tags, tags)),", "            chain(self._exec_tags, tags),", "C22.8"),
     m("put-records-retried-with-generator", D, "        return self._put_records(list(records))\n\n    @db_retry\n    def _put_records(self, records: list[dict]) -> int:\n        assert self._record_serializer\n", "        return self._put_records(records)\n\n    @db_retry\n    def _put_records(self, records: Iterable[dict]) -> int:\n        assert self._record_serializer\n        records = list(records)\n", "C22.8"),
 )
+_add(
+    "C20",
+    m("collapse-indexes-orphan", S, "        if self in parent_job.child_jobs:\n            parent_job.child_jobs[parent_job.child_jobs.index(self)] = other_job", "        if True:\n            parent_job.child_jobs[parent_job.child_jobs.index(self)] = other_job", "C20.10"),
+    m("root-task-ignores-options", S, "        for arg in iter_nested_value((expr.args, expr.kwargs, default_kwargs, options))", "        for arg in iter_nested_value((expr.args, expr.kwargs, default_kwargs))", "C20.10"),
+)
